@@ -108,6 +108,13 @@ impl<S: Clone + Debug> SymbolTable<S> {
             .any(|edge| edge.target() != to_export_nx && edge.weight() == &new_id)
         {
             false
+        } else if self
+            .graph
+            .edges_directed(new_nx, Direction::Outgoing)
+            .any(|edge| edge.target() == to_export_nx && edge.weight() == &new_id)
+        {
+            // Was exported already, in a previous pass
+            true
         } else {
             // Doesn't exist yet. So, now link 'new_nx' to 'to_export_nx' via 'new_id'
             log::trace!(
